@@ -64,6 +64,8 @@ def locCount (tr : List Att) : Nat := (tr.filter (fun a => !a.fwd)).length
 inductive PT where
   | f   -- the attempt fails without effect
   | l   -- forwarded, executed by the leader, the answer is an error
+  | x   -- the caller leads when it looks, but has lost the leadership when it makes its Raft call: the call fails
+        -- (ErrNotLeader); from then on `lead` leads
   deriving DecidableEq, Repr
 
 /-- which of the other running members list the subject peer after the step -/
@@ -71,11 +73,12 @@ inductive Has where
   | all | none | mixed
   deriving DecidableEq, Repr
 
-/-- the oracle a plan stands for: `lead` leads throughout; attempts beyond the plan are healthy -/
-def planOrc (lead : Nat) (plan : List PT) : Nat → Tick := fun k =>
+/-- the oracle a plan stands for: `lead` leads (after an `x`: the caller led until then); attempts beyond the plan are healthy -/
+def planOrc (self lead : Nat) (plan : List PT) : Nat → Tick := fun k =>
   match plan[k]? with
   | some .f => { leader := some lead, ok := false, lost := false }
   | some .l => { leader := some lead, ok := false, lost := true }
+  | some .x => { leader := some self, ok := false, lost := false }
   | none => { leader := some lead, ok := true, lost := false }
 
 inductive FOp where
@@ -101,13 +104,13 @@ def executedBefore (plan : List PT) (k : Nat) : Bool := (plan.take k).contains .
 
 /-- removing ONESELF through a lost reply: the caller's Raft instance shuts down when it learns of its removal
     (it may or may not learn in time): from then on it finds no leader -/
-def goneOrc (lead : Nat) (plan : List PT) : Nat → Tick := fun k =>
-  if executedBefore plan k then { leader := none, ok := false, lost := false } else planOrc lead plan k
+def goneOrc (self lead : Nat) (plan : List PT) : Nat → Tick := fun k =>
+  if executedBefore plan k then { leader := none, ok := false, lost := false } else planOrc self lead plan k
 
 /-- removing THE LEADER through a lost reply: somebody else leads afterwards; if that is the caller itself the
     remaining attempts are its own Raft calls -/
 def selfLeadsOrc (self lead : Nat) (plan : List PT) : Nat → Tick := fun k =>
-  if executedBefore plan k then { leader := some self, ok := true, lost := false } else planOrc lead plan k
+  if executedBefore plan k then { leader := some self, ok := true, lost := false } else planOrc self lead plan k
 
 def fCall (retries : Nat) (init : List Nat) (log : List Entry) (att : Attempt) (orc : Nat → Tick) (a j lead : Nat)
     (res : Res) (fwd loc : Nat) (has : Has) : Option (List Entry) :=
@@ -124,11 +127,11 @@ def fCallAny (retries : Nat) (init : List Nat) (log : List Entry) (att : Attempt
 
 /-- the oracles a removal step may have met -/
 def rmOrcs (a j lead : Nat) (plan : List PT) : List (Nat → Tick) :=
-  [planOrc lead plan] ++ (if a == j then [goneOrc lead plan] else []) ++ (if j == lead then [selfLeadsOrc a lead plan] else [])
+  [planOrc a lead plan] ++ (if a == j then [goneOrc a lead plan] else []) ++ (if j == lead then [selfLeadsOrc a lead plan] else [])
 
 def fStep (retries : Nat) (init : List Nat) (log : List Entry) : FOp → Option (List Entry)
   | .add a j lead plan res fwd loc has =>
-    fCallAny retries init log (rwAddPeer j) a j lead res fwd loc has [planOrc lead plan]
+    fCallAny retries init log (rwAddPeer j) a j lead res fwd loc has [planOrc a lead plan]
   | .rm a j lead plan res fwd loc has =>
     fCallAny retries init log (rwRemovePeer j) a j lead res fwd loc has (rmOrcs a j lead plan)
   | .pin a p => if init.contains a && cfgHas (cfgAt log) a then some (log ++ [.pin p]) else none
@@ -204,5 +207,40 @@ def cLogs (running : List Nat) : List (List Entry) → List (List COp) → List 
 
 def cAllowed (k : CCase) : Bool :=
   (cLogs (normPeers k.init) [[.boot k.init]] k.phases).any (fun log => fObsOk k.init log k.obs)
+
+/-! ### a joiner during a burst of pins (suite `join`)
+
+`pre` pins are acknowledged one after the other; then `burst` pins are logged one after the other from one member WHILE a
+staging peer is started, added (`acked` burst pins had been acknowledged when `AddPeer` was issued) and waited for.
+All pins have distinct cids. `ready` = the joiner's pinset at the instant `Ready()` fired. -/
+structure JCase where
+  init : List Nat
+  joiner : Nat
+  pre : List Pin
+  burst : List Pin
+  acked : Nat
+  addRes : Res
+  bits : Bool × Bool × Bool     -- leader known / voter / applied == last, read when Ready() fired
+  ready : PinMap
+  obs : Obs
+
+/-- the single log when Raft ordered the joiner's addition after the first `m` pins -/
+def jLog (k : JCase) (m : Nat) : List Entry :=
+  [.boot k.init] ++ ((k.pre ++ k.burst).take m).map Entry.pin ++ [.addVoter k.joiner] ++ ((k.pre ++ k.burst).drop m).map Entry.pin
+
+/-- the observation is explained by some position `m` of the addition — after everything acknowledged before `AddPeer`
+    was issued — and some prefix `h` of the log at which `WaitForSync` let the joiner through -/
+def jAllowed (k : JCase) : Bool :=
+  let total := (k.pre ++ k.burst).length
+  k.addRes == .ok && k.bits.1 && k.bits.2.1 && k.bits.2.2 &&
+  (List.range (total + 1)).any (fun m =>
+    decide (k.pre.length + k.acked ≤ m) &&
+    (List.range (total + 3)).any (fun h =>
+      let mem : Member := { id := k.joiner, have_ := h, applied := h }
+      syncReady (jLog k m) true mem && canonMap (mem.pins (jLog k m)) == canonMap k.ready) &&
+    (k.obs.members.all (fun mo =>
+      !(k.joiner :: k.init).contains mo.id ||
+        (mo.peers == cfgIds (cfgAt (jLog k m)) && canonMap mo.pins == canonMap (pinsAt (jLog k m)))) &&
+     (k.joiner :: k.init).all (fun i => k.obs.members.any (fun mo => mo.id == i))))
 
 end CV.C17
